@@ -75,6 +75,7 @@ func (eng *Engine) verifyFunctionSpec(fn *ssa.Function, modes Modes, spec map[st
 	}
 	res.Contract = ct
 	g.topCt = ct
+	g.trackEsc = ct != nil && (ct.NoAlloc || ct.NoAllocWhen != nil) && !ct.Trusted && modes.Post
 	defer func() {
 		if r := recover(); r != nil {
 			if ce, ok := r.(contractError); ok {
@@ -114,7 +115,7 @@ func (eng *Engine) verifyFunctionSpec(fn *ssa.Function, modes Modes, spec map[st
 	for _, k := range []string{"P", "MP"} {
 		g.assume(fmt.Sprintf("(forall ((r Int) (o Int)) (! (< (pref (select (select %s r) o)) %s) :pattern ((select (select %s r) o))))", st0.H[k], st0.Next, st0.H[k]))
 	}
-	if ct != nil && ct.Inlines != nil {
+	if g.inPlace() {
 		// function values that exist at entry are not closures created during the call (closure identities are allocated
 		// from 2000001 on, one per MakeClosure executed)
 		for _, k := range []string{"F", "MF"} {
@@ -155,6 +156,9 @@ func (eng *Engine) verifyFunctionSpec(fn *ssa.Function, modes Modes, spec map[st
 		}
 	}
 	top := &Act{g: g, fn: fn, prefix: "", top: true, tuples: map[ssa.Value][]string{}, ct: ct, lets: map[string]tv{}, firedCuts: map[*Cut]bool{}}
+	if ct != nil {
+		top.unrollN = ct.UnrollAll
+	}
 	var args []string
 	for i, p := range fn.Params {
 		n := g.havoc("p_"+p.Name(), g.sortOf(p.Type()))
@@ -425,6 +429,15 @@ func (a *Act) checkPost(r retInfo) {
 			}
 			// the clauses are proved in order; a later one may rely on the earlier ones (each is an obligation of its own)
 			g.assumeIf(r.reach, c)
+		}
+	}
+	// noalloc claims are checked: the allocation counter at the return is the one at entry
+	if a.ct.NoAlloc && !a.ct.Trusted && g.trackEsc {
+		g.oblige("noalloc", a.srcDetail(r.instr), r.reach, fmt.Sprintf("(= %s %s)", g.escNow(r.st), g.escNow(g.entry)), a.pos(r.instr.Pos()), "noalloc: nothing that outlives the call is allocated")
+	}
+	if a.ct.NoAllocWhen != nil && !a.ct.Trusted && g.trackEsc {
+		for _, c := range a.evalClauseAt(a.ct.NoAllocWhen, r.st, nil, r.vals) {
+			g.oblige("noalloc", a.srcDetail(r.instr), r.reach, fmt.Sprintf("(=> %s (= %s %s))", c, g.escNow(r.st), g.escNow(g.entry)), a.pos(r.instr.Pos()), "noalloc when "+a.ct.NoAllocWhen.Text)
 		}
 	}
 	a.checkRefines(r)
